@@ -341,6 +341,7 @@ type iexprCase struct {
 	Code  []iInstr   `json:"code"`
 	Vals  [][]string `json:"vals"` // assignments: one list of doubles (as text) per run
 	Style int        `json:"style"`
+	Style2 int       `json:"style2"` // which pool of names the re-evaluation method uses for its inputs
 }
 
 type ival struct {
@@ -585,6 +586,76 @@ func handleIExpr(raw json.RawMessage) interface{} {
 		case "null":
 			if v["t"] != "null" {
 				mism("ieee:value-mismatch", "null", gotS())
+			}
+		}
+	}
+	// RE-EVALUATION: the same expression (one syntax tree) evaluated for every row of slot values within ONE execution - as the body
+	// of a method whose inputs carry the slots, under names of every documented shape (also names that begin with a sign).
+	// Row by row the method must yield what the lowered code yields for that row: nothing of an earlier evaluation sticks to the tree.
+	if nslot > 0 && len(c.Vals) > 1 {
+		pools := [][]string{{"槽1", "槽2", "槽3", "槽4"}, {"-甲", "+乙", "-丙丁", "+偏移"}, {"a", "b1", "c_", "_d"}, {"-a", "+b", "甲1", "-乙2"}}
+		nm := pools[c.Style2%len(pools)]
+		expr2 := expr
+		for k := nslot; k >= 1; k-- {
+			expr2 = strings.ReplaceAll(expr2, fmt.Sprintf("槽%d", k), nm[k-1])
+		}
+		var args []string
+		for k := 1; k <= nslot; k++ {
+			args = append(args, fmt.Sprintf("行#%d", k))
+		}
+		src2 := "输入表\n" + probePrelude + "如何算？\n    输入 " + strings.Join(nm[:nslot], "、") + "\n    输出 " + expr2 + "\n    拦截异常：\n        输出“ERR”\n\n" +
+			"令果 = 【】\n以行遍历表：\n    以果（后增：（算：" + strings.Join(args, "、") + "））\n输出果\n"
+		rows := []r.Element{}
+		var wants []ival
+		var wantErrs []bool
+		nrows := len(c.Vals)
+		if nrows > 40 {
+			nrows = 40
+		}
+		for _, vs := range c.Vals[:nrows] {
+			env := make([]float64, len(vs))
+			items := []r.Element{}
+			for k, sv := range vs {
+				env[k] = parseDouble(sv)
+				if k < nslot {
+					items = append(items, value.NewNumber(env[k]))
+				}
+			}
+			w, we, _ := runLowered(c.Code, env)
+			wants = append(wants, w)
+			wantErrs = append(wantErrs, we)
+			rows = append(rows, value.NewArray(items))
+		}
+		o := zn.RunScript(src2, map[string]r.Element{"表": value.NewArray(rows)})
+		runs++
+		bad := func(kind, w, g string, row int) {
+			ms = append(ms, map[string]interface{}{"kind": kind, "expr": expr2 + " (evaluated for several rows in one execution; row " + fmt.Sprint(row+1) + ")", "vals": c.Vals[row%len(c.Vals)], "want": w, "got": g})
+		}
+		if o.Obs != "value" {
+			bad("ieee:reevaluation:"+o.Obs, "a list of results", lastLine(o.Msg), 0)
+		} else if items, ok := o.Val["v"].([]interface{}); !ok || len(items) != nrows {
+			bad("ieee:reevaluation:shape", fmt.Sprintf("%d results", nrows), fmt.Sprint(o.Val), 0)
+		} else {
+			for i, it := range items {
+				v, _ := it.(zn.V)
+				b, _ := json.Marshal(v)
+				switch {
+				case wantErrs[i]:
+					if v["t"] != "str" || v["v"] != "ERR" {
+						bad("ieee:reevaluation:value-for-error", "error", string(b), i)
+					}
+				case wants[i].t == "num":
+					if v["t"] != "num" || v["s"] != zn.NumStr(wants[i].f) {
+						bad("ieee:reevaluation:value-mismatch", "num "+zn.NumStr(wants[i].f), string(b), i)
+					}
+				case wants[i].t == "bool":
+					if v["t"] != "bool" || v["v"] != wants[i].b {
+						bad("ieee:reevaluation:value-mismatch", fmt.Sprintf("bool %v", wants[i].b), string(b), i)
+					}
+				}
+				if len(ms) > 3 {
+					break
+				}
 			}
 		}
 	}
